@@ -583,9 +583,10 @@ func runC14(r *core.Run) (bool, string) {
 		"payload matrix (payload_matrix_* keys): for each of those sizes a writer appends header + body + trailer round after round (or AtomicCreates a record of that size) while readers poll through their own descriptors from the offset they have verified, with no harness synchronisation; each reader checks that what it reads is a sequence of whole appends in order / one whole record of a round not older than the last one seen; plain and -race builds of both implementations; " +
 		"pool A keeps at most one open descriptor per inode, pool B adds 'several clients open one sealed file' and 'open while another client appends', pool C is pool B's mix with boundary arguments (empty and nil data for Append / AtomicCreate, zero-length ReadAt, offsets at / beyond / far beyond the end, reads crossing the end). " +
 		"Boundary-argument matrix (matrix_* keys): every operation class = operation + boundary argument (empty / nil slices for Append and AtomicCreate, zero-length ReadAt, offsets at / beyond / far beyond EOF, reads crossing EOF, empty files and directories, names that exist / are free / are used by both goroutines, Mkdir, and on MemFs the refused calls: closed descriptor, wrong mode, missing name or directory) is looped by one goroutine while a second goroutine loops every class (itself included) on one fresh filesystem, with no harness synchronisation between start barrier and join; plain and -race builds; " +
-		"a pair counts as 'ran concurrently' when the monotonic-clock [before,after] intervals of at least one call of each goroutine intersect; each class checks only what holds in every linearization, refused classes decide only races and process death")
+		"a pair counts as 'ran concurrently' when the monotonic-clock [before,after] intervals of at least one call of each goroutine intersect; each class checks only what holds in every linearization, refused classes decide only races and process death; " +
+		"namespace-invariant family (list_invariant_* keys): a directory of 0 / 300 / 1000 short or 120 200-byte static names (1 … 20 getdents buffers) that nobody touches, 1 or 3 mutator goroutines that each run a chain of tokens over fresh names — at-least-one: appear(t i+1) then Delete(t i); at-most-one: Delete(t i) then appear(t i+1); created-in-order: appear(t 1), appear(t 2), … (the tokens are always t0 … tm); deleted-in-order: Delete(t 0), Delete(t 1), … of 300 tokens (always tm … t299), chains of ONE kind of operation so that a single operation that is not atomic with respect to List shows; appear = Create+Close / AtomicCreate / Link; plus one directory of 12 000 names with an AtomicCreate chain (a List there spans several AtomicCreates) — and 1 or 2 listers looping List, no harness synchronisation besides two atomic counters per chain (operations started / completed): a List invoked after lo operations of a chain had completed and returned before operation hi started must show the chain's token set of SOME instant in [lo, hi] (closed form), every static name exactly once and nothing else; MemFs and DirFs, plain and -race builds")
 	r.Assume("every issued call is valid in every order consistent with real time (names that are deleted are only touched by Create, Link-target, List and their single owner; AtomicCreate of a name only by its owner; concurrent AtomicCreates of different names, also of a name and of its reserved-looking shapes, do happen); names are legal single path components, nothing else is reserved")
-	r.Assume("directories hold at most 8 entries, so DirFs.List needs one getdents call and the documented multi-chunk non-atomicity is not exercised")
+	r.Assume("in the history layers and the matrices directories hold at most 8 entries, so DirFs.List needs one getdents call there; Lists that need several calls while other names of the directory come and go are the namespace-invariant family, whose 0-static-name cells stay within one buffer")
 	r.Assume("the logical clock is sound for real-time order: if ret(A) < call(B) on the counter then A returned before B was invoked")
 	r.Assume("schedules are whatever the Go runtime produces under GOMAXPROCS 1,2,4,16 with Gosched salting; the race detector reports only races on accesses that actually happened")
 
@@ -729,12 +730,25 @@ func runC14(r *core.Run) (bool, string) {
 		}
 		core.Parallel(len(hs), 6, func(i int) { check(hs[i], i == 1 && b.procs == 4) })
 	})
+	var listInvOverlaps int64
 	{
 		var pwg sync.WaitGroup
 		pwg.Add(1)
 		go func() {
 			defer pwg.Done()
 			c14PayloadMatrix(r, self, raceBin, raceDir, &childLog, &mu)
+		}()
+		// namespace-invariant family: multi-buffer Lists during churn (c14listinv.go)
+		pwg.Add(1)
+		go func() {
+			defer pwg.Done()
+			listInvOverlaps = c14ListInvariant(r, self, raceBin, raceDir, &childLog, &mu)
+		}()
+		// payload size × short transfers, under the tracer of c12short.go (c14shortpayload.go)
+		pwg.Add(1)
+		go func() {
+			defer pwg.Done()
+			c14ShortPayload(r, self, &childLog, &mu)
 		}()
 		c14Matrix(r, self, raceBin, raceDir, &childLog, &mu)
 		pwg.Wait()
@@ -773,6 +787,9 @@ func runC14(r *core.Run) (bool, string) {
 
 	if nHist < len(batches) {
 		return false, "almost no history came back from the children"
+	}
+	if listInvOverlaps < 200 && r.NumViolations() == 0 {
+		return false, fmt.Sprintf("only %d Lists of a multi-buffer directory overlapped a mutation of that directory", listInvOverlaps)
 	}
 	return pairsTotal >= 1000, fmt.Sprintf("only %d overlapping call pairs were observed", pairsTotal)
 }
